@@ -115,8 +115,9 @@ Print Assumptions C05_path_weak.
                                of addresses = left-to-right fold of evaluate
      ltN W l                   every member of l is a node of W
      settled W s               every built formula/range node of s holds a value
-                               (true of init W, kept by evaluate: settled_init,
-                               settled_list_weak) *)
+                               (C05_settled: true of init W, kept by address lists;
+                               NOT a hypothesis of the theorems below, which start
+                               from any state of the invariant) *)
 
 (* evaluate(list) returns at EVERY position what evaluate of that address alone
    returns from the same state, whatever the other members and their order *)
@@ -132,7 +133,7 @@ Print Assumptions C05_list_path.
    FINAL MACHINE STATES are equal (cell map and every cache entry), every later
    evaluate agrees, and equal addresses got equal values at whatever positions *)
 Theorem C05_same_members : forall W sem, wf W -> sem_nonblank_weak W sem -> stored_ok W sem ->
-  forall s l1 l2, Inv W sem s -> settled W s -> ltN W l1 -> ltN W l2 ->
+  forall s l1 l2, Inv W sem s -> ltN W l1 -> ltN W l2 ->
     (forall n, In n l1 <-> In n l2) ->
     (forall m, st_built (fst (evaluate_list W sem s l1)) m
                = st_built (fst (evaluate_list W sem s l2)) m
@@ -150,7 +151,7 @@ Print Assumptions C05_same_members.
    a permutation of each other, reading any cell afterwards gives the same
    value, and the final machine states are equal *)
 Theorem C05_permutation : forall W sem, wf W -> sem_nonblank_weak W sem -> stored_ok W sem ->
-  forall s l1 l2, Inv W sem s -> settled W s -> ltN W l1 -> Permutation l1 l2 ->
+  forall s l1 l2, Inv W sem s -> ltN W l1 -> Permutation l1 l2 ->
     Permutation (combine l1 (snd (evaluate_list W sem s l1)))
                 (combine l2 (snd (evaluate_list W sem s l2)))
     /\ (forall c, c < wb_n W -> snd (evaluate W sem (fst (evaluate_list W sem s l1)) c)
@@ -210,8 +211,9 @@ Theorem C05_states_agree : forall W sem, wf W -> sem_nonblank_weak W sem -> stor
 Proof. exact states_agree_weak. Qed.
 Print Assumptions C05_states_agree.
 
-(* the side conditions of C05_permutation / C05_same_members hold at the start
-   and after every address list *)
+(* as long as cells enter the model through evaluate only (no Build), every
+   cell of the cell map holds a value: true at the start and after every address
+   list; the invariant itself is kept too *)
 Theorem C05_settled : forall W sem, wf W -> sem_nonblank_weak W sem -> stored_ok W sem ->
   settled W (init W) /\ Inv W sem (init W)
   /\ forall s l, Inv W sem s -> settled W s -> ltN W l ->
@@ -222,7 +224,7 @@ Print Assumptions C05_settled.
 (* evaluating the same address list a second time returns the same values and
    leaves the machine state (cell map, every cache entry) unchanged *)
 Theorem C05_list_repeat : forall W sem, wf W -> sem_nonblank_weak W sem -> stored_ok W sem ->
-  forall s l, Inv W sem s -> settled W s -> ltN W l ->
+  forall s l, Inv W sem s -> ltN W l ->
     snd (evaluate_list W sem (fst (evaluate_list W sem s l)) l) = snd (evaluate_list W sem s l)
     /\ forall m, st_built (fst (evaluate_list W sem (fst (evaluate_list W sem s l)) l)) m
                  = st_built (fst (evaluate_list W sem s l)) m
